@@ -36,6 +36,11 @@ RNG_PARAMS = ('np_rng', 'rng')
 DRAWINT_METHODS = {'randint', 'integers', 'randrange', 'getrandbits'}
 NP_RANDOM_CONSTRUCTORS = {'default_rng', 'RandomState', 'Generator'}
 NP_BIT_GENERATORS = ('PCG64', 'PCG64DXSM', 'MT19937', 'Philox', 'SFC64')
+# sources of values that differ from run to run without any generator being involved: such a value may not reach a draw's arguments,
+# a seed expression or a child seed (the drawn number would no longer be a function of the seed)
+NONDET_MODULES = ('time', 'datetime', 'uuid', 'secrets', 'threading', 'socket', 'platform', 'resource', 'tempfile')
+NONDET_OS = {'urandom', 'getpid', 'getppid', 'times', 'getrandom', 'getloadavg', 'cpu_count', 'getcwd', 'environ', 'getenv', 'stat', 'listdir', 'scandir'}
+NONDET_BUILTINS = {'id', 'hash', 'object', 'input', 'open', 'vars', 'globals', 'locals'}
 NP_RANDOM_INERT = {'SeedSequence', 'PCG64', 'MT19937', 'Philox', 'SFC64', 'BitGenerator', 'PCG64DXSM'}
 PY_RANDOM_CONSTRUCTORS = {'Random'}
 # torch functions that consume the global torch generator
@@ -533,10 +538,12 @@ class Ctx:
             self.seed_name = None
             self.seed_expr = {'cur': ('param',)}
             self.seedvals = {}         # local name -> seed expression: `s = rng.randint(…)` at the top level of the body, used later as `seed=s`
+            self.tainted = set()       # locals that (may) hold a run-dependent value (clock, pid, object address, …)
             self.depth = 0
         else:
             self.depth = parent.depth + 1
             self.seedvals = parent.seedvals
+            self.tainted = parent.tainted
             for k in ('vars', 'counter', 'closures', 'kwdicts', 'params', 'local_names', 'local_defs', 'aliases', 'partials', 'instances',
                       'strlists', 'closure_locals', 'seed_name', 'seed_expr'):
                 setattr(self, k, getattr(parent, k))
@@ -662,7 +669,84 @@ class Ctx:
             return None
         return '.'.join(c)
 
+    def nondet_in(self, node):
+        """does the expression (possibly) depend on a run-dependent value: a call / attribute of a clock-, pid-, address-like source, or a
+        local assigned from one (taint, flow-insensitive once set)"""
+        if node is None:
+            return False
+        for n in ast.walk(node):
+            if isinstance(n, ast.Name) and isinstance(n.ctx, ast.Load):
+                if n.id in self.tainted:
+                    return True
+                if n.id in NONDET_BUILTINS and n.id not in self.local_names:
+                    return True
+                obj = self.aliases.get(n.id) if n.id in self.aliases else self.ent.module.__dict__.get(n.id) if n.id not in self.local_names else None
+                if self.nondet_obj(obj):
+                    return True
+            elif isinstance(n, ast.Attribute):
+                c = chain_of(n)
+                if c is not None:
+                    try:
+                        obj = self.resolve(c)
+                    except Exception:
+                        obj = None
+                    if self.nondet_obj(obj):
+                        return True
+        return False
+
+    @staticmethod
+    def nondet_obj(obj):
+        if obj is None:
+            return False
+        if isinstance(obj, types.ModuleType):
+            return obj.__name__.split('.')[0] in NONDET_MODULES
+        mod = str(getattr(obj, '__module__', '') or '')
+        if not mod and getattr(obj, '__self__', None) is not None and isinstance(obj.__self__, types.ModuleType):
+            mod = obj.__self__.__name__
+        top = mod.split('.')[0]
+        if top in NONDET_MODULES:
+            return True
+        if top in ('os', 'posix', 'nt') and getattr(obj, '__name__', '') in NONDET_OS:
+            return True
+        return False
+
+    def taint_targets(self, targets, value):
+        """locals bound to a run-dependent value stay tainted (never cleared: flow-insensitive, fail-safe)"""
+        if self.nondet_in(value):
+            for t in targets:
+                for n in ast.walk(t):
+                    if isinstance(n, ast.Name):
+                        self.tainted.add(n.id)
+
+    def store_into_tracked(self, t):
+        """`np_rng.bit_generator.state = …`, `np_rng.x[0] = …`: a store through a tracked generator (or the seed parameter) changes its
+        state in a way the model does not follow: unknown effect, and the generator is no longer tracked"""
+        hit = False
+        for n in ast.walk(t):
+            if isinstance(n, (ast.Attribute, ast.Subscript)) and isinstance(getattr(n, 'ctx', None), (ast.Store, ast.Del)):
+                base = n.value
+                while isinstance(base, (ast.Attribute, ast.Subscript)):
+                    nm = self.name_of(base) if isinstance(base, ast.Attribute) else None
+                    if nm is not None and nm in self.vars:
+                        break
+                    base = base.value
+                nm = self.name_of(base)
+                if nm is None:
+                    continue
+                if nm in self.vars:
+                    self.unknown(t, 'store through a tracked generator')
+                    del self.vars[nm]
+                    self.vars_lost = True
+                    hit = True
+                elif self.seed_name is not None and nm == self.seed_name and getattr(self.ent, 'role', None) == 'rng':
+                    self.unknown(t, 'store through the generator parameter')
+                    self.seed_expr['cur'] = ('unknown',)
+                    hit = True
+        return hit
+
     def seedexpr(self, node):
+        if node is not None and not isinstance(node, ast.Constant) and self.nondet_in(node):
+            return ('unknown',)
         if isinstance(node, ast.Constant):
             if node.value is None:
                 return ('none',)
@@ -733,6 +817,7 @@ class Ctx:
             return
         if isinstance(st, (ast.For, ast.AsyncFor)):
             self.expr(st.iter)
+            self.taint_targets([st.target], st.iter)
             self.bind_target(st.target)
             a = self.sub(); a.block(st.body)
             if a.stmts:
@@ -769,14 +854,17 @@ class Ctx:
             return
         if isinstance(st, ast.AugAssign):
             self.expr(st.value)
-            self.forget(st.target)
+            self.taint_targets([st.target], st.value)
+            if not self.store_into_tracked(st.target):
+                self.forget(st.target)
             return
         if isinstance(st, (ast.Global, ast.Nonlocal)):
             self.unknown(st, 'global/nonlocal')
             return
         if isinstance(st, ast.Delete):
             for t in st.targets:
-                self.forget(t)
+                if not self.store_into_tracked(t):
+                    self.forget(t)
             return
         for child in ast.iter_child_nodes(st):
             if isinstance(child, ast.expr):
@@ -831,6 +919,11 @@ class Ctx:
 
     def assign(self, targets, value):
         tr = self.tr
+        self.taint_targets(targets, value)
+        for t in targets:
+            if self.store_into_tracked(t):
+                self.expr(value)
+                return
         tname = self.name_of(targets[0]) if len(targets) == 1 else None
         simple = len(targets) == 1 and isinstance(targets[0], (ast.Name, ast.Attribute)) and tname is not None
         # `kwargs['x'] = …`
@@ -1142,6 +1235,7 @@ class Ctx:
             return
         if isinstance(node, ast.NamedExpr):
             self.expr(node.value)
+            self.taint_targets([node.target], node.value)
             self.bind_target(node.target)
             return
         if isinstance(node, (ast.Await, ast.Yield, ast.YieldFrom)):
@@ -1170,8 +1264,13 @@ class Ctx:
     def eval_args(self, node, skip=()):
         for a in node.args:
             if id(a) not in skip: self.expr(a.value if isinstance(a, ast.Starred) else a)
+            # a tracked keyword dictionary handed to a callee as a value may be changed by it
+            if isinstance(a, ast.Name) and a.id in self.kwdicts:
+                self.kwdicts[a.id] = None
         for k in node.keywords:
             if id(k.value) not in skip: self.expr(k.value)
+            if k.arg is not None and isinstance(k.value, ast.Name) and k.value.id in self.kwdicts:
+                self.kwdicts[k.value.id] = None
 
     def draw_from(self, nm):
         if self.seed_name is not None and nm == self.seed_name:
@@ -1252,10 +1351,14 @@ class Ctx:
             base = self.name_of(func.value)
             if base is not None and base in self.vars:
                 self.eval_args(node)
+                if any(self.nondet_in(a) for a in list(node.args) + [k.value for k in node.keywords]):
+                    self.unknown(node, 'draw whose arguments depend on a run-dependent value')
                 self.emit(('draw', self.vars[base]))
                 return
             if base is not None and self.seed_name is not None and base == self.seed_name:
                 self.eval_args(node)
+                if any(self.nondet_in(a) for a in list(node.args) + [k.value for k in node.keywords]):
+                    self.unknown(node, 'draw whose arguments depend on a run-dependent value')
                 self.draw_from(base)
                 return
         chain = chain_of(func)
@@ -1361,6 +1464,9 @@ class Ctx:
                 return
             recv = self.name_of(func.value)
             root = root_name(func.value)
+            # a tracked keyword dictionary changed through a method (`kw.update(seed=None)`, `kw.pop('seed')`, …): contents unknown from here on
+            if recv is not None and recv in self.kwdicts and meth not in ('get', 'keys', 'values', 'items', 'copy'):
+                self.kwdicts[recv] = None
             # typed receivers: `self.manifold(...)` is handled in the name branch; here `self.attr.method(...)`, `model.method(...)`
             if recv is not None and recv in self.instances and self.instances[recv] is not None:
                 self.call_instance(node, self.instances[recv], meth); return
@@ -1531,8 +1637,10 @@ def emit_lean(tr, path):
         old = open(path).read()
     if old != txt:
         os.makedirs(os.path.dirname(path), exist_ok=True)
-        with open(path, 'w') as fh:
+        tmp = path + f'.tmp{os.getpid()}'
+        with open(tmp, 'w') as fh:
             fh.write(txt)
+        os.replace(tmp, path)   # atomic
     return txt
 
 
